@@ -285,8 +285,51 @@ def directed_config(rng, required, max_steps, goal_at_once=False, defender=False
 def directed(rng, k):
     """Run the k-th directed scenario; returns (Session, cfg, draw)."""
     kinds = ["eof", "readerr", "quit", "undecodable"]
-    k = k % 8
-    if k == 7:
+    variant = (k // 10) % 2
+    k = k % 10
+    if k == 8:
+        # two attackers and a defender: one attacker reaches the goal, the other runs out of steps; the defender's reason and
+        # bonus must reflect that SOME attacker succeeded, whichever joined first
+        cfg, draw = directed_config(rng, 3, 2)
+        A = cfg["coordinator"]["agents"]["Attacker"]
+        g0 = copy.deepcopy(nsgenv.EMPTY_PART)
+        g0["known_hosts"] = ["192.168.1.2"]                              # reached by scanning 192.168.1.0/24
+        A["goal"] = dict(g0, description="goal", is_any_part_of_goal_random=False)
+        S = CR.Session(cfg, draw=draw)
+        w, l, dd = ("10.2.8.1", 1), ("10.2.8.2", 2), ("10.2.8.3", 3)
+        for x in (w, l, dd):
+            S.connect(x)
+        S.settle()
+        order = [(w, "win"), (l, "lose")] if variant == 0 else [(l, "lose"), (w, "win")]
+        for x, nm in order:
+            _join(S, x, nm, "Attacker")
+        _join(S, dd, "def", "Defender"); S.settle()
+        t, d = game_msg("FindData", source_host=ip("192.168.2.2"), target_host=ip("192.168.2.2"))
+        S.send(l, t, d); S.settle()
+        _scan(S, w); S.settle()                                          # the winner reaches the goal
+        S.send(l, t, d); S.settle()                                      # the loser times out
+        S.send(dd, t, d); S.settle()                                     # the defender's step ends its episode: rewards
+        S.send(dd, t, d); S.settle()                                     # refused probes repeat reason and reward
+        _scan(S, w); S.settle()
+        for x in (w, l, dd):
+            _reset(S, x, False)
+        S.settle()
+    elif k == 9:
+        # detection exactly at the step limit: the defender's decision comes before the timeout in the status rule
+        cfg, draw = directed_config(rng, 1, 5, defender=True)
+        S = CR.Session(cfg, draw=0.0)
+        a = ("10.2.9.1", 1)
+        S.connect(a); S.settle()
+        _join(S, a, "a", "Attacker"); S.settle()
+        fs, dfs = game_msg("FindServices", source_host=ip("192.168.2.2"), target_host=ip("192.168.2.2"))
+        fd, dfd = game_msg("FindData", source_host=ip("192.168.2.2"), target_host=ip("192.168.2.2"))
+        for t, d in ((fs, dfs), (fd, dfd), (fs, dfs)):
+            S.send(a, t, d); S.settle()
+        _scan(S, a); S.settle(); _scan(S, a); S.settle()                 # fifth action: window full, threshold met, draw 0.0
+        _scan(S, a); S.settle()                                          # refused
+        _reset(S, a, True); S.settle()
+        draw = 0.0
+    elif k == 7:
         # bad requests tour: every kind of bad request, before and after joining, with a second agent waiting at a barrier
         cfg, draw = directed_config(rng, 2, 4)
         S = CR.Session(cfg, draw=draw)
